@@ -129,6 +129,8 @@ def make_case(rng, path):
             calls.append(T("with_ack_timeout", list(rng.choice([(0, 0), (1, 0), (0, 250_000_000), (5, 999_999), (60, 0)]))))
         if comp or rng.random() < 0.5:
             calls.append(T("with_compression", [comp]))
+        if rng.random() < 0.25:
+            calls.append(T("with_partitioner"))      # re-installs the default partitioner: every other setting must survive it
         rng.shuffle(calls)
         if rng.random() < 0.2:
             ops = [T("producer_build", [T("from_hosts", [hs]), calls])]
